@@ -37,4 +37,12 @@ PROPS = {
         "trusted_base": ["gzip (flate2) + base64 codec: abstract in the model (hypothesis dec(enc l)=l), exercised on every run by the roundtrip stream", "serde/Url glue of StatusList2021Entry/Credential (correspondence only)"],
         "assumptions": ["byte vectors are well formed (every element < 256), which holds for every Box<[u8]>"],
     },
+    "C11": {
+        "translate": True,
+        "diff_is_violation": False,
+        "trivial": ["bad-request"],
+        "rule": "streams: (1) corpus; (2) the FULL decision table {protected, unprotected} x alg{absent,present} x b64{absent,true,false} x crit{absent,[],[b64],[b64,b64],[alg],[exp],[x-unknown],[x5t#S256],[kid],[b64,exp],[nonce]} x shared registered/custom names, presented to CompactJwsEncoder::new, FlattenedJwsEncoder::new and (as hand-assembled tokens) to decode_compact/decode_flattened followed by verify with an accept-all verifier; custom names shadowing the other header's declared parameters (via set_custom); general serialization with 2 (thorough 3) recipients over 9 recipient shapes through GeneralJwsEncoder::new/add_recipient and decode_general_serialization; (3) random header pairs over all 11 registered fields + custom names. Observable: accept/reject (+ verify gate). Non-trivial = not bad-request; distinct request lines.",
+        "trusted_base": ["serde (de)serialisation of JwsHeader (flatten/custom map) — correspondence only", "WF domain of validate_iff: custom map does not name `alg`/`b64` (those two shadowings are outside the theorem and outside the oracle)"],
+        "assumptions": [],
+    },
 }
